@@ -37,13 +37,16 @@ def expressions(tier, seed):
             "x ** y ** 2", "(x ** y) ** 2", "x - (y - 1)", "x - y - 1", "x / (y * 2)", "x / y * 2", "x // (y // 2)", "(x // y) // 2", "x % 3 * 2", "x % (3 * 2)",
             "- - x", "1 - -1", "x * -1", "x -- y", "+x", "-(-x)", "-(-(-x))", "(-x).abs()", "-x.abs()", "1 / -x", "-1 ** x", "(-1) ** x", "-x + -y", "-(x) * -(y)",
             "1 < x", "(1 < x) == (y > 2)", "x == -1", "-x == 1"]
+    # a LITERAL as the receiver of a method (negative, zero, float, parenthesised) with one and with several arguments
+    out += [f"({lit}).{m}" for lit in ["-1.5", "0", "2", "-3", "1.0", "-0.5"] for m in ["maximum(x)", "minimum(y)", "fmax(x)", "where(x, y)", "coalesce(x)", "abs()", "sign()"]]
+    out += ["(x > 0).if_else(-1, 2)", "(x > 0).if_else((-1.5).maximum(y), (0).minimum(x))", "(-2).maximum(x).abs()", "(-(2)).maximum(x)"]
     seen, res = set(), []
     for e in out:
         if e not in seen:
             seen.add(e)
             res.append(e)
     if tier == "quick":
-        res = res[::3] + [e for e in res if "**" in e and "-" in e][:150]
+        res = res[::3] + [e for e in res if "**" in e and "-" in e][:150] + [e for e in res if e.startswith(("(-", "(0", "(1", "(2")) and ")." in e]
         res = list(dict.fromkeys(res))
     return res
 
